@@ -1,4 +1,6 @@
 import CattrsModel.Threads.Lemmas
+import CattrsModel.Threads.SlotLemmas
+import CattrsModel.Threads.ReplayLemmas
 /-!
 # C19 — a shared converter is thread-safe, including concurrent first use of a type      (PARTIAL)
 
@@ -12,7 +14,13 @@ What is proved here — for EVERY schedule (induction over the schedule, `runSch
 
 * log level (`wsRun`): `C19_projection`, `C19_shared_log_witness`;
 * generation machine (`tstep` / `gstep` / `runSched`): `C19_frame`, `C19_ws_is_own_stack`, `C19_no_false_cycle`,
-  `C19_calls_preserved`, `C19_cache_ok`, `C19_serialisable` (+ `C19_serialisable_seq`), `C19_shared_breaks`.
+  `C19_calls_preserved`, `C19_cache_ok`, `C19_serialisable` (+ `C19_serialisable_seq`), `C19_shared_breaks`;
+* the machine extended by the working-set SWAP of `strategies/_subclasses.py` (`runOps`, `Threads/Slot.lean`):
+  `C19_swap_frame`, `C19_swap_ws`, `C19_swap_no_false_cycle`, `C19_swap_cache_ok`;
+* the REFINED machine (attribute slot that is deleted when the set becomes empty, identities of set objects, swap;
+  `runOpsR`): `C19_slot_unobservable` — it is the abstract machine under every extended schedule and never faults;
+* replay of observed interleavings (`Threads/Replay.lean`, what corr:C19:GENSCHED runs): `C19_replay_is_schedule`,
+  `C19_silent_steps_local`, `C19_silent_steps_commute`.
 
 PARTIAL because (and only because) of what the model takes as atomic: one `tstep` is one access to the memo
 tables / one test-and-add on the working set / one remove; the atomicity of a single `dict` / `set` /
@@ -267,5 +275,148 @@ theorem C19_shared_breaks :
   match n with
   | 0 => decide
   | n + 1 => simp [wG, Graph.node]
+
+/-! ## The working-set swap of `strategies/_subclasses.py` and the attribute slot -/
+
+/-- **C19_swap_frame** (full).  Operations of other threads — steps AND swaps — touch neither thread `j`'s control
+state / stack / results nor its working set. -/
+theorem C19_swap_frame (G : Graph) (j : Nat) (ops : List SOp) (hs : ∀ op ∈ ops, op.tid ≠ j) (s : GState) :
+    (runOps false G ops s).threads j = s.threads j ∧ (runOps false G ops s).ws j = s.ws j := by
+  induction ops generalizing s with
+  | nil => exact ⟨rfl, rfl⟩
+  | cons op ops ih =>
+    have := ih (fun x hx => hs x (by simp [hx])) (gop false G s op)
+    rw [runOps_cons, this.1, this.2]
+    have hop := hs op (by simp)
+    cases op with
+    | step i =>
+      have hi : j ≠ i := fun h => hop h.symm
+      exact ⟨gstep_thread_other _ _ _ _ _ hi, gstep_ws_other _ _ _ _ hi⟩
+    | swap i P =>
+      have hi : j ≠ i := fun h => hop h.symm
+      refine ⟨by rw [gop, (gswap_threads false s i P).1], ?_⟩
+      simp only [gop, gswap]
+      split
+      · simp [hi]
+      · rfl
+
+/-- **C19_swap_ws** (full).  Under every extended schedule a thread's working set is its OWN unfinished factories
+(innermost first) followed by the classes of one of its OWN swaps (or nothing). -/
+theorem C19_swap_ws (G : Graph) (calls : Nat → List Nat) (ops : List SOp) (i : Nat) :
+    let s := runOps false G ops (GState.init calls)
+    ∃ P, s.ws i = wsOf G (s.threads i).stack ++ P ∧ (P = [] ∨ SOp.swap i P ∈ ops) := by
+  have := (runOps_XInv calls ops [] _ (XInv_init G calls)).ws i
+  simpa using this
+
+/-- **C19_swap_no_false_cycle** (partial: atomicity granularity).  Under every extended schedule: no `KeyError` is in
+flight, no `remove` ever failed, and whatever thread `i` does next, its `remove` does not fail and if its test-and-add
+finds the class then an unfinished factory of thread `i` ITSELF is generating it or thread `i` ITSELF put it there
+by a swap (forced late binding — the purpose of the swap).  Never because of another thread.
+(With forced classes a `RecursionError` reaches the caller when the ROOT of a call is forced; `_subclasses.py`
+never asks for a forced class.) -/
+theorem C19_swap_no_false_cycle (G : Graph) (calls : Nat → List Nat) (ops : List SOp) (i : Nat) :
+    let s := runOps false G ops (GState.init calls)
+    (s.threads i).ctl ≠ .raise .key ∧ (∀ n, (i, Ev.exit n false) ∉ s.trace) ∧
+    ∃ P, (P = [] ∨ SOp.swap i P ∈ ops) ∧ evOKph (s.threads i) P (tstep G (s.threads i) (s.ws i) s.mem).ev := by
+  intro s
+  have inv := runOps_XInv calls ops [] _ (XInv_init G calls)
+  simp only [List.nil_append] at inv
+  obtain ⟨P, hP, hP'⟩ := inv.ws i
+  exact ⟨inv.nokey i, inv.trace i, P, hP', (tstep_NoKey G _ _ _ P hP (inv.nokey i)).2⟩
+
+/-- **C19_swap_cache_ok** (partial: atomicity granularity; any sharing mode).  `C19_cache_ok` and
+`C19_calls_preserved` for extended schedules: swaps cannot make a memo cell ill-typed or lose a call. -/
+theorem C19_swap_cache_ok (shared : Bool) (G : Graph) (calls : Nat → List Nat) (ops : List SOp) (n : Nat) (h : Hook) :
+    let s := runOps shared G ops (GState.init calls)
+    ((s.mem.lru n = some h ∨ s.mem.direct n = some h) → Hook.wt G h n = true ∧ ∀ k, behave G s.mem k h = spec G k n) ∧
+    ∀ i, (s.threads i).results.map (·.1) ++ (s.threads i).calls = calls i := by
+  intro s
+  have inv := runOps_GInv (shared := shared) (G := G) calls ops _ (GInv_init G calls)
+  refine ⟨?_, fun i => (inv.sinv i).calls⟩
+  intro hm
+  have hw : Hook.wt G h n = true := by
+    rcases hm with hm | hm
+    · exact inv.mem.1 n h hm
+    · exact inv.mem.2 n h hm
+  exact ⟨hw, fun k => behave_eq_spec G s.mem inv.mem k h n hw⟩
+
+/-- plain schedules are the extended schedules without swaps: everything above specialises to `runSched` -/
+theorem C19_ops_extend_sched (shared : Bool) (G : Graph) (sched : List Nat) (s : GState) :
+    runOps shared G (sched.map .step) s = runSched shared G sched s :=
+  runOps_steps shared G sched s
+
+/-- **C19_slot_unobservable** (full).  The refined machine keeps, per thread, the attribute slot (absent / a set
+object), the members of every set object, and for every unfinished working-set factory the set object IT holds; a
+factory creates and stores a set when the attribute is absent, removes its class from the object it holds and
+deletes the attribute when that object became empty; a swap stores a fresh object.  Under EVERY extended schedule:
+(1) forgetting slots and identities gives exactly the state of the abstract machine — every control decision,
+memo cell, result and event is the same; (2) `del` never meets an absent attribute (no `AttributeError`);
+(3) every unfinished factory of a thread holds THE object its slot holds (nobody works on a stale set), one per
+working-set factory on its stack. -/
+theorem C19_slot_unobservable (G : Graph) (calls : Nat → List Nat) (ops : List SOp) :
+    let r := runOpsR G ops (RState.init calls)
+    r.abs = runOps false G ops (GState.init calls) ∧ r.fault = false ∧
+    ∀ i, (∀ sid ∈ r.sids i, (r.cells i).slot = some sid) ∧ (r.sids i).length = (wsOf G (r.threads i).stack).length := by
+  intro r
+  have h := runOpsR_sim (G := G) calls ops [] (RState.init calls) rfl (RInvG_init G calls)
+  simp only [List.nil_append] at h
+  exact ⟨h.1, h.2.fault, fun i => ⟨(h.2.thr i).held, (h.2.thr i).len⟩⟩
+
+/-! ### Non-vacuity: the first pass of `include_subclasses` on `K0 {a: K1}`, `K1(K0) {b: K0}` -/
+
+/-- node 0 = K0, 1 = K1 (fields of K0 and its own), 2 = the top-level `get_unstructure_hook(K0, cache_result=False)` -/
+def swG : Graph := [⟨true, true, false, [(1, false)]⟩, ⟨true, true, false, [(1, false), (0, false)]⟩,
+                    ⟨false, false, false, [(0, false)]⟩]
+
+def swOps : List SOp := [.swap 0 [1]] ++ (List.replicate 20 (.step 0)) ++ [.swap 0 []]
+
+/-- K1 is forced: thread 0 finds it although it never started generating it; the call returns a hook; the refined
+machine ends with an EMPTY set in the slot (not deleted), no fault; without the swap K1 is generated (entered) -/
+example :
+    let r := runOpsR swG swOps (RState.init (fun i => if i = 0 then [2] else []))
+    (r.threads 0).finished = true ∧ (r.threads 0).results.all (·.2.isOk) = true ∧
+    (0, Ev.enter 1 false) ∈ r.trace ∧ (0, Ev.enter 1 true) ∉ r.trace ∧
+    slotView r 0 = some [] ∧ r.fault = false ∧
+    (0, Ev.enter 1 true) ∈ (runOpsR swG (List.replicate 30 (.step 0)) (RState.init (fun i => if i = 0 then [2] else []))).trace ∧
+    slotView (runOpsR swG (List.replicate 30 (.step 0)) (RState.init (fun i => if i = 0 then [2] else []))) 0 = none := by
+  decide
+
+/-! ## Replaying observed interleavings (corr:C19:GENSCHED / corr:C19:SWAP) -/
+
+/-- **C19_replay_is_schedule** (full).  What the driver computes for an observed interleaving — on the abstract
+machine (`replay`) and on the refined one (`replayR`) — is `runSched` / `runOpsR` of the expanded schedule it returns,
+and the forgetful image of the latter is `runOps` of it: all theorems above apply to exactly that state. -/
+theorem C19_replay_is_schedule (G : Graph) (fuel : Nat) (calls : Nat → List Nat) :
+    (∀ (shared : Bool) (tids : List Nat) (s : GState),
+      (replay shared G fuel tids s).1 = runSched shared G (replay shared G fuel tids s).2.2 s) ∧
+    (∀ (items : List SOp),
+      let r := replayR G fuel items (RState.init calls)
+      r.1 = runOpsR G r.2.2 (RState.init calls) ∧ r.1.abs = runOps false G r.2.2 (GState.init calls) ∧
+      r.1.fault = false) := by
+  refine ⟨fun shared tids s => replay_is_sched shared G fuel tids s, ?_⟩
+  intro items r
+  have h1 := replayR_is_ops G fuel items (RState.init calls)
+  have h2 := C19_slot_unobservable G calls r.2.2
+  refine ⟨h1, ?_, ?_⟩
+  · rw [h1]; exact h2.1
+  · rw [h1]; exact h2.2.1
+
+/-- **C19_silent_steps_local** (full).  A step that `accOf` reports no access for changes neither the memo tables
+nor the working set and emits no event: between two observed accesses a thread only moves its own control state,
+which no other thread reads (`C19_frame`), so where those steps sit in the replayed schedule is immaterial. -/
+theorem C19_silent_steps_local (G : Graph) (th : Thread) (ws : List Nat) (M : Mem) (h : accOf G th ws M = none) :
+    (tstep G th ws M).mem = M ∧ (tstep G th ws M).ws = ws ∧ (tstep G th ws M).ev = none :=
+  tstep_silent G th ws M h
+
+/-- **C19_silent_steps_commute** (full).  A step without access of thread `i` commutes with ANY step of another thread
+`j` (thread-local working sets): two schedules that differ only in where such steps sit between the observed accesses
+lead to the same global state — the replay of an observed interleaving is determined by the order of the accesses. -/
+theorem C19_silent_steps_commute (G : Graph) (s : GState) (i j : Nat) (hij : i ≠ j)
+    (h : accOf G (s.threads i) (s.ws i) s.mem = none) :
+    gstep false G (gstep false G s i) j = gstep false G (gstep false G s j) i :=
+  gstep_silent_comm G s i j hij h
+
+example : accOf exG ⟨.run, [⟨0, true, [], [(1, false)]⟩], [0], []⟩ [0] Mem.init = none := by decide
+example : accOf exG ⟨.disp 0 true, [], [0], []⟩ [] Mem.init = some (.lruRead 0 false) := by decide
 
 end CattrsModel
